@@ -341,6 +341,51 @@ DecCellUnion(fs) ==
          ok |-> fs[1].b = <<1>> /\ n <= MaxCells /\ Len(fs) = 2 + n]
 
 -----------------------------------------------------------------------------
+(* Transport.  An encoding is a byte sequence; a reader hands it out in     *)
+(* pieces (a file, a socket, a decompressor, bufio's 4096-byte buffer).     *)
+(* Decode is a function of the byte sequence alone: however the stream is   *)
+(* cut into pieces, the fixed-width reads of the decoder see the same bytes.*)
+(* pat = piece lengths (each >= 1), used cyclically.                        *)
+
+RECURSIVE Pieces(_, _, _)
+Pieces(bs, pat, k) ==
+    IF Len(bs) = 0 THEN <<>>
+    ELSE LET n == MinI(pat[((k - 1) % Len(pat)) + 1], Len(bs))
+         IN  <<SubSeq(bs, 1, n)>> \o Pieces(SubSeq(bs, n + 1, Len(bs)), pat, k + 1)
+
+StreamInit(bs, pat) == [rest |-> Pieces(bs, pat, 1)]
+\* io.Reader.Read: at most `want` bytes, never across a piece boundary (a SHORT read is legal)
+StreamRead(st, want) ==
+    IF Len(st.rest) = 0 THEN [got |-> <<>>, eof |-> TRUE, st |-> st]
+    ELSE LET p == st.rest[1]
+             n == MinI(want, Len(p))
+         IN  [got |-> SubSeq(p, 1, n), eof |-> FALSE,
+              st |-> [rest |-> IF n = Len(p) THEN Tail(st.rest) ELSE <<SubSeq(p, n + 1, Len(p))>> \o Tail(st.rest)]]
+\* io.ReadFull: Read until `want` bytes have arrived (or the stream ends: short = TRUE)
+RECURSIVE StreamReadFull(_, _)
+StreamReadFull(st, want) ==
+    IF want = 0 THEN [got |-> <<>>, st |-> st, short |-> FALSE]
+    ELSE LET r == StreamRead(st, want)
+         IN  IF r.eof THEN [got |-> <<>>, st |-> st, short |-> TRUE]
+             ELSE LET q == StreamReadFull(r.st, want - Len(r.got))
+                  IN  [got |-> r.got \o q.got, st |-> q.st, short |-> q.short]
+\* the decoder's view: the byte strings returned by its successive fixed-width reads
+RECURSIVE ReadFields(_, _)
+ReadFields(st, szs) ==
+    IF Len(szs) = 0 THEN <<>>
+    ELSE LET r == StreamReadFull(st, szs[1])
+         IN  <<[b |-> r.got, short |-> r.short]>> \o ReadFields(r.st, Tail(szs))
+
+\* re-chunking the stream leaves what the decoder reads (hence the decoded value) unchanged
+ChunkingInvariant(bs, szs, pat) ==
+    /\ Flat(Pieces(bs, pat, 1)) = bs
+    /\ ReadFields(StreamInit(bs, pat), szs) = ReadFields(StreamInit(bs, <<Len(bs) + 1>>), szs)
+
+\* byte widths of the fields of an encoding (float64 = 8) and a stand-in byte string of that length
+FieldSizes(fs) == [i \in 1..Len(fs) |-> IF fs[i].k = "f64" THEN 8 ELSE Len(fs[i].b)]
+StandIn(n) == [i \in 1..n |-> (i * 37) % 256]
+
+-----------------------------------------------------------------------------
 (* Model theorems (evaluated by the generators on every model value)        *)
 
 CoderLossless(xs, Wd) == DecSeq(CoderInit, EncSeq(CoderInit, xs, Wd), Wd) = xs
